@@ -243,6 +243,35 @@ impl SegmentIndex {
         }
     }
 
+    /// Synchronously reads the labels of the segments published in `segments.idx`.
+    /// Returns `None` when the index is missing or unreadable, so start-up code can
+    /// fall back to scanning the shard directory.
+    pub fn published_labels(shard_dir: &Path) -> Option<Vec<String>> {
+        let mut file = fs::File::open(shard_dir.join("segments.idx")).ok()?;
+        let header = BinaryHeader::read_from(&mut file).ok()?;
+        if header.magic != FileKind::ShardSegmentIndex.magic() {
+            return None;
+        }
+        let entries: Vec<SegmentEntry> = bincode::deserialize_from(BufReader::new(file)).ok()?;
+        Some(entries.iter().map(|entry| entry.label()).collect())
+    }
+
+    /// Writes an empty `segments.idx` for a shard that has neither an index nor segment
+    /// directories (what `recover_from_disk` would compute), so that a crash during the
+    /// very first flush leaves an index that (correctly) names no segment.
+    pub fn init_empty(shard_dir: &Path) -> Result<(), StoreError> {
+        let path = shard_dir.join("segments.idx");
+        let tmp_path = shard_dir.join("segments.idx.tmp");
+        let mut writer = BufWriter::new(File::create(&tmp_path)?);
+        BinaryHeader::new(FileKind::ShardSegmentIndex.magic(), 1, 0).write_to(&mut writer)?;
+        bincode::serialize_into(&mut writer, &Vec::<SegmentEntry>::new())?;
+        writer.flush()?;
+        writer.get_ref().sync_all()?;
+        drop(writer);
+        fs::rename(&tmp_path, &path)?;
+        Ok(())
+    }
+
     /// Attempts to load the index file, returning error if corrupted.
     async fn try_load_index(path: &Path) -> Result<Self, StoreError> {
         let mut file = fs::File::open(path)?;
